@@ -98,6 +98,23 @@ Theorem C40_dead_code_simplify_idem_validated : forall p q,
 Proof. exact dce_idem_simplify_partial. Qed.
 Print Assumptions C40_dead_code_simplify_idem_validated.
 
+(** * do_remove_dead_code with SELECT CASE (own source-level model [kdce]: visit_MultiConditional + visit_Conditional) *)
+Theorem C40_dead_code_select_normal_form : forall u p q,
+  (knf_l u q = true -> kdce u q = Some q)
+  /\ (kdce u p = Some q -> (u = true -> kconds_stable q = true) -> knf_l u q = true).
+Proof. intros u p q. split; [apply kdce_nf_fix|apply kdce_out_nf]. Qed.
+Print Assumptions C40_dead_code_select_normal_form.
+
+(** every body is visited BEFORE the matching case is spliced in, so one application removes all nested dead code *)
+Theorem C40_dead_code_select_idem : forall p q, kdce false p = Some q -> kdce false q = Some q.
+Proof. exact kdce_idem_nosimplify. Qed.
+Print Assumptions C40_dead_code_select_idem.
+
+Theorem C40_dead_code_select_simplify_idem_validated : forall p q,
+  kdce true p = Some q -> kconds_stable q = true -> kdce true q = Some q.
+Proof. exact kdce_idem_simplify_validated. Qed.
+Print Assumptions C40_dead_code_select_simplify_idem_validated.
+
 (** * convert_to_lower_case *)
 Theorem C40_lower_name_idem : forall s, lower (lower s) = lower s.
 Proof. exact lower_name_idem. Qed.
